@@ -60,7 +60,7 @@ def concrete_run(ob, values):
             if cm:
                 cm.__exit__(None, None, None)
     except symx.PathAbort as e:
-        err = "abort: %s" % (e,)
+        err = "abort: %s\n%s" % (e, traceback.format_exc(limit=4))
     except Exception as e:
         err = "exception: %r\n%s" % (e, traceback.format_exc(limit=6))
     return cx.failed, cx.reached, obs, err
